@@ -4,7 +4,7 @@
    real constant on every run (Gen/C10.v) and enters through the side conditions of Proofs/SideC10.v.
    The transport (a *net.TCPConn) is the chunk oracle of Base/Chunks.v: every statement is `forall c` (chunking).
    Nothing is bounded: frame lists, write scripts, read-buffer size sequences, byte strings are arbitrary. *)
-From TX Require Import Model.CrossFrame Proofs.CrossFrame Model.CrossTracker Proofs.CrossTracker Model.Forward Proofs.Forward Proofs.SideC10 Gen.C10.
+From TX Require Import Model.CrossFrame Proofs.CrossFrame Model.CrossTracker Proofs.CrossTracker Model.Forward Proofs.Forward Proofs.CrossCompose Proofs.SideC10 Gen.C10.
 Close Scope N_scope.
 
 (* (1) every list of frames the writers accept decodes to itself under every chunking, then a clean io.EOF *)
@@ -399,3 +399,35 @@ Theorem C10_tracker_check_before_filter_refuted :
                          (encode_all 65536 (script_frames 65536 tid false ops)) []))) <> accepted ops.
 Proof. exact check_before_filter_refuted. Qed.
 Print Assumptions C10_tracker_check_before_filter_refuted.
+
+(* ------------------------------------------------------------------------------------------------------------
+   "any write sizes, including writes larger than one frame": every frame ANY script of Write/CloseWrite/Close calls hands
+   to WriteFrame is one the encoder accepts (16-byte id, payload <= MaxFrameSize) — a Write is never refused for its size,
+   it is segmented *)
+Theorem C10_write_frames_within_limit :
+  forall (tid : list byte) (ops : list wop) (w : bool), length tid = 16 ->
+  Forall (wf_frame MaxFrameSize) (script_frames MaxFrameSize tid w ops).
+Proof. intros tid ops w Ht. exact (script_frames_wf MaxFrameSize max_frame_fits_u32 tid max_frame_pos Ht ops w). Qed.
+Print Assumptions C10_write_frames_within_limit.
+
+(* end to end, the upload path of a forwarded tunnel: the bytes `rest r` a local connection hands out under ANY chunk
+   oracle r, read with any positive buffer size, each chunk written to the FrameStream, then the half-close: the peer's
+   FrameStream reads exactly those bytes and then end-of-stream, for every transport chunking and read-buffer sizes *)
+Theorem C10_end_to_end_upload :
+  forall (cap : N) (r : rd) tid weof caps dcap c,
+  (0 < cap)%N -> length tid = 16 -> Forall (fun k => 1 <= k) caps -> 1 <= dcap ->
+  data_of (fst (fst (read_stream MaxFrameSize tid weof caps dcap
+     (encode_all MaxFrameSize (script_frames MaxFrameSize tid false (map WWrite (oracle_chunks (length (rest r)) cap r) ++ [WCloseWrite]))) c))) = rest r /\
+  last (fst (fst (read_stream MaxFrameSize tid weof caps dcap
+     (encode_all MaxFrameSize (script_frames MaxFrameSize tid false (map WWrite (oracle_chunks (length (rest r)) cap r) ++ [WCloseWrite]))) c))) RFuel = REof.
+Proof. exact (end_to_end_upload MaxFrameSize max_frame_fits_u32 max_frame_pos). Qed.
+Print Assumptions C10_end_to_end_upload.
+
+Theorem C10_end_to_end_example :
+  let r := {| rest := [1;2;3;4;5;6;7]%N; cuts := [2;1;9]; endk := 0%N; carry := false |} in
+  oracle_chunks 7 3 r = [[1;2]; [3]; [4;5;6]; [7]]%N /\
+  fst (fst (read_stream 4 (wire_id [97]%N) false [2] 5
+              (encode_all 4 (script_frames 4 (wire_id [97]%N) false (map WWrite (oracle_chunks 7 3 r) ++ [WCloseWrite]))) [1;30]))
+  = [RData [1;2]; RData [3]; RData [4;5;6]; RData [7]; REof]%N.
+Proof. exact end_to_end_example. Qed.
+Print Assumptions C10_end_to_end_example.
